@@ -142,6 +142,16 @@ pub fn generate_and_run(seed: u64, tier: &str, cases_w: &mut dyn Write, impl_w: 
 		writeln!(cases_w, "UR {id} {mode} {} {}", hex(&data), ss.join(",")).unwrap();
 		writeln!(impl_w, "{id} {res}").unwrap();
 		*st.kinds.entry(kind.to_string()).or_insert(0) += 1;
+		if res == "panic" {
+			// a panic inside the re-encoder is the implementation's failure on this input, not the harness's
+			*st.ends.entry("panic".to_string()).or_insert(0) += 1;
+			if st.oracle_failures.len() < 40 {
+				st.oracle_failures.push(format!("UR {mode} {} sizes {} => the re-encoder panicked", hex(&data), ss.join(",")));
+			}
+			st.nontrivial += 1;
+			id += 1;
+			return;
+		}
 		let end = res.rsplit(' ').next().unwrap_or("").split(':').next().unwrap_or("").to_string();
 		*st.ends.entry(end.clone()).or_insert(0) += 1;
 		if let Expect::Text(exp) = &expect {
